@@ -452,6 +452,24 @@ protected:
     }
 #endif
 
+    // Access only the first n bytes of the bit field. A channel whose bit range ends before the last byte
+    // of the bit field must not touch the bytes behind it: they may lie past the end of the pixel buffer.
+    auto get_data(std::size_t n) const -> bitfield_t
+    {
+        bitfield_t ret = 0;
+        unsigned char const* from = gil_reinterpret_cast_c<unsigned char const*>(_data_ptr);
+        unsigned char* to = gil_reinterpret_cast<unsigned char*>(&ret);
+        for (std::size_t i = 0; i < n; ++i) to[i] = from[i];
+        return ret;
+    }
+
+    void set_data(bitfield_t const& val, std::size_t n) const
+    {
+        unsigned char const* from = gil_reinterpret_cast_c<unsigned char const*>(&val);
+        unsigned char* to = gil_reinterpret_cast<unsigned char*>(_data_ptr);
+        for (std::size_t i = 0; i < n; ++i) to[i] = from[i];
+    }
+
 private:
     void set(integer_t value) const {     // can this be done faster??
         this->derived().set_unsafe(((value % num_values) + num_values) % num_values);
@@ -662,7 +680,15 @@ public:
     auto get() const -> integer_t
     {
         const BitField channel_mask = static_cast< integer_t >( parent_t::max_val ) <<_first_bit;
-        return static_cast< integer_t >(( this->get_data()&channel_mask ) >> _first_bit );
+        return static_cast< integer_t >(( this->get_data(num_bytes())&channel_mask ) >> _first_bit );
+    }
+
+private:
+    // number of bytes of the bit field that hold bits of this channel
+    auto num_bytes() const -> std::size_t
+    {
+        std::size_t const n = (_first_bit + NumBits + 7) / 8;
+        return n < sizeof(BitField) ? n : sizeof(BitField);
     }
 };
 
@@ -708,12 +734,21 @@ public:
     auto get() const -> integer_t
     {
         BitField const channel_mask = static_cast< integer_t >( parent_t::max_val ) << _first_bit;
-        return static_cast< integer_t >(( this->get_data()&channel_mask ) >> _first_bit );
+        return static_cast< integer_t >(( this->get_data(num_bytes())&channel_mask ) >> _first_bit );
     }
 
     void set_unsafe(integer_t value) const {
         const BitField channel_mask = static_cast< integer_t >( parent_t::max_val ) << _first_bit;
-        this->set_data((this->get_data() & ~channel_mask) | value<<_first_bit);
+        std::size_t const n = num_bytes();
+        this->set_data((this->get_data(n) & ~channel_mask) | value<<_first_bit, n);
+    }
+
+private:
+    // number of bytes of the bit field that hold bits of this channel
+    auto num_bytes() const -> std::size_t
+    {
+        std::size_t const n = (_first_bit + NumBits + 7) / 8;
+        return n < sizeof(BitField) ? n : sizeof(BitField);
     }
 };
 } }  // namespace boost::gil
